@@ -55,6 +55,11 @@ Definition meta_type (k : string) : option mtype :=
 Definition time_standard : bool :=
   marshal_uses_time_safe_append && append_time_is_standard_ext && append_recurses_into_containers.
 
+(* the three skip conditions of MarshalMsg the model's [marshal] transcribes (raw field already memoised,
+   raw field with a reserved name, memoised field with a reserved name), as found in the source text *)
+Definition marshal_shape_ok : bool :=
+  marshal_skips_memoized_raw && marshal_skips_reserved_raw && marshal_skips_reserved_memo.
+
 (* ---------- decoders ---------- *)
 (* vmihailenco/msgpack with UseLooseInterfaceDecoding (the msgpack /1/events path):
    bin -> string, float32 -> float64 ([widen] is Go's float64(float32), supplied by the harness) *)
@@ -328,26 +333,26 @@ Section Forward.
   Definition path_fields (pa : path) (fs : fields) : fields :=
     map (fun kv => (fst kv, path_value pa (snd kv))) fs.
 
-  (* request -> *types.Event as processEvent sees it (after ExtractMetadata); None = rejected *)
+  (* request -> *types.Event as processEvent sees it (after ExtractMetadata); None = rejected.
+     The HTTP handlers refuse an empty data map ("empty event data"); the OTLP msgpack path
+     (processOTLPRequestBatchMsgp, PMetaOnly) has no such check and memoises no key field. *)
+  Definition ingest_raw (c : xcfg) (keys : list string) (ua : string) (fs : fields) : option payload :=
+    match extract c keys fs {| p_raw := fs; p_memo := []; p_missing := []; p_meta := [] |} with
+    | Some p => Some (add_ua ua p)
+    | None => None
+    end.
+
   Definition ingest (pa : path) (c : xcfg) (ua : string) (fs : fields) : option payload :=
-    match fs with
-    | [] => None                                    (* "empty event data" *)
-    | _ =>
-      match pa with
-      | PBatchMsgp | PBatchJson =>
-          match extract c (key_fields c) fs {| p_raw := fs; p_memo := []; p_missing := []; p_meta := [] |} with
-          | Some p => Some (add_ua ua p)
-          | None => None
-          end
-      | PMetaOnly =>
-          match extract c [] fs {| p_raw := fs; p_memo := []; p_missing := []; p_meta := [] |} with
-          | Some p => Some (add_ua ua p)
-          | None => None
-          end
-      | PEventJson | PEventMsgp =>
-          let p0 := {| p_raw := []; p_memo := path_fields pa fs; p_missing := []; p_meta := [] |} in
-          Some (extract_memo c (add_ua ua p0))
-      end
+    match pa with
+    | PMetaOnly => ingest_raw c [] ua fs
+    | PBatchMsgp | PBatchJson =>
+        match fs with [] => None | _ => ingest_raw c (key_fields c) ua fs end
+    | PEventJson | PEventMsgp =>
+        match fs with
+        | [] => None
+        | _ => let p0 := {| p_raw := []; p_memo := path_fields pa fs; p_missing := []; p_meta := [] |} in
+               Some (extract_memo c (add_ua ua p0))
+        end
     end.
 
   Definition is_probe (p : payload) : bool :=
